@@ -13,6 +13,10 @@ BOUNDARY_CPS = [0x20, 0x21, 0x41, 0x61, 0x7E, 0x80, 0xA9, 0xE9, 0x3BB, 0x7FF, 0x
 # Unicode White_Space other than the ASCII blank: the library separates words at the ASCII blank only (str::trim* would strip these too)
 WS_CPS = [0x85, 0xA0, 0x1680, 0x2000, 0x2003, 0x2009, 0x2028, 0x2029, 0x202F, 0x205F, 0x3000]
 
+# scalars whose LOW BYTE is a byte the library gives a meaning to (h - blank quote backslash NUL CR LF TAB ESC [ DEL): a comparison on a
+# truncated value (`c as u8`) would confuse them with it
+LOWBYTE_CPS = [base + b for b in (0x68, 0x2D, 0x20, 0x22, 0x5C, 0x00, 0x0D, 0x0A, 0x09, 0x1B, 0x5B, 0x7F, 0x08) for base in (0x100, 0x4F00, 0x1F400)]
+
 def rand_cp(rng, ascii_weight=5):
     k = rng.randrange(ascii_weight + 4)
     if k < ascii_weight:
@@ -24,7 +28,8 @@ def rand_cp(rng, ascii_weight=5):
         return c if not (0xD800 <= c <= 0xDFFF) else 0x20AC
     if k == ascii_weight + 2:
         return rng.randrange(0x10000, 0x110000)
-    return rng.choice(BOUNDARY_CPS + WS_CPS) if rng.randrange(6) == 0 else rng.choice(BOUNDARY_CPS)
+    r_ = rng.randrange(8)
+    return rng.choice(WS_CPS) if r_ == 0 else rng.choice(LOWBYTE_CPS) if r_ == 1 else rng.choice(BOUNDARY_CPS)
 
 def rand_char(rng, ascii_weight=5):
     cp = rand_cp(rng, ascii_weight)
@@ -216,6 +221,49 @@ def rand_do_line(rng, chars=None):
         toks.append(quote_token(k.encode() + t))
     return b"do " + b" ".join(toks)
 
+MB = ["\u00e9", "\u0436", "\u20ac", "\u4f50", "\U0001d51e"]
+
+def rand_scenario(rng):
+    """small multi-step situations that random key mixing rarely produces"""
+    r = rng.randrange(6)
+    ops = []
+    if r == 0:
+        # Tab after a (partial) command word followed by blanks, with the cursor moved back among the blanks or into the word
+        w = rng.choice([b"he", b"hel", b"help", b"h", b"ec", b"x"])
+        ops.append("b:" + hx(w + b" " * rng.choice([0, 1, 2, 3])))
+        ops += ["b:" + hx(KEYS["left"])] * rng.choice([0, 1, 1, 2, 3])
+        ops.append("b:09")
+        if rng.randrange(2): ops.append("b:" + hx(rng.choice([b"x", b" y", b""])))
+        ops.append("b:0d")
+    elif r == 1:
+        # `help` followed by options, among them -h / --help, also inside clusters and after --
+        toks = [rng.choice(ARG_TOKENS + [b"-v", b"-vh", b"--all", b"led", b"-x"]) for _ in range(rng.choice([1, 2, 3]))]
+        ops.append("b:" + hx(cmd_line(rng.choice([b"help", b"help", b"he", b"echo"]), toks)))
+        ops.append("b:0d")
+    elif r == 2:
+        # a line, another line, then a PREFIX of the first line that ends in front of a multi-byte character; then Up as often as entries
+        p_ = rng.choice([b"caf", b"a", b"x y"])
+        first = p_ + rng.choice(MB).encode("utf-8") + rng.choice([b"", b"z"])
+        for l in (first, rng.choice([b"x", b"q r"]), p_):
+            ops += ["b:" + hx(l), "b:0d"]
+        ops += ["b:" + hx(KEYS["up"])] * rng.choice([2, 3, 4])
+        if rng.randrange(2): ops.append("b:0d")
+    elif r == 3:
+        # a line that ends inside an unclosed quoted token, with blanks at its end
+        ops.append("b:" + hx(rng.choice([b"say ", b"", b"a "]) + b'"' + rng.choice([b"hi", b"", b"x y"]) + b" " * rng.choice([1, 2])))
+        ops.append("b:0d")
+    elif r == 4:
+        # the command buffer filled until characters are rejected, then editing goes on
+        ops.append("b:" + hx(b"abcdefghijklmnopqrstuvwxyz"[:rng.choice([3, 8, 9, 16])]))
+        ops.append("b:" + hx(rng.choice([b"i", "\u0436".encode("utf-8")])))
+        ops += rng.choice([["b:08"], ["b:" + hx(KEYS["left"]), "b:58"], ["b:" + hx(KEYS["left"])] * 3 + ["b:5a", "b:08"]])
+        ops.append("b:0d")
+    else:
+        # recall over a longer / shorter line with multi-byte text
+        ops += ["b:" + hx(rng.choice(MB).encode("utf-8") * rng.choice([1, 3])), "b:0d", "b:" + hx(rng.choice([b"ab", b"hello"])), rng.choice(["b:0d", "b:61"]),
+                "b:" + hx(KEYS["up"]), "b:" + hx(KEYS["up"]), "b:" + hx(KEYS["down"]), "b:" + hx(KEYS["down"])]
+    return ops
+
 def rand_word(rng):
     k = rng.randrange(10)
     if k < 4: return rng.choice(RAW_CMDS)
@@ -230,6 +278,8 @@ def rand_session_ops(rng, nops=30, api=True, malformed=False, faults=False):
         if k < 4:
             ops.append("b:" + hx(rand_do_line(rng)))
             if rng.randrange(5): ops.append("b:0d")
+        elif k < 7:
+            ops += rand_scenario(rng)
         elif k < 30:
             w = rand_word(rng)
             if rng.randrange(4) == 0:
@@ -278,6 +328,8 @@ def rand_session_w1(rng, nops=30):
         if k < 4:
             ops.append("b:" + hx(rand_do_line(rng, chars=[b"a", b"b", b" ", "\u00e9".encode(), b"x"])))
             if rng.randrange(5): ops.append("b:0d")
+        elif k < 7:
+            ops += rand_scenario(rng)
         elif k < 25:
             w = rng.choice([b"echo", b"nl", b"crlf", b"ln", b"mid", b"lnmid", b"fmt", b"prompt", b"quiet", b"help", b"he", b"x", b"hel"])
             ops.append("b:" + hx(w))
